@@ -126,7 +126,38 @@ def run(ids, tier):
     return 0
 
 
+def summary():
+    rows = []
+    for sid in sorted(os.listdir(SEEDED)):
+        d = os.path.join(SEEDED, sid)
+        if not os.path.exists(os.path.join(d, "meta.json")):
+            continue
+        meta = json.load(open(os.path.join(d, "meta.json")))
+        res = json.load(open(os.path.join(d, "result.json"))) if os.path.exists(os.path.join(d, "result.json")) else None
+        need = " ".join(meta.get("needs_to_manifest", "").split())
+        need = need[:260] + ("…" if len(need) > 260 else "")
+        if res is None:
+            verdict = "not run yet"
+        elif res["caught"]:
+            verdict = "caught" + (", concrete failing input" if res["with_concrete_failing_input"] else ", no-failing-input-found")
+        else:
+            verdict = "MISSED"
+        rows.append("| %s | %s | %s | %s |" % (sid, meta["breaks_property"], verdict, need.replace("|", "/")))
+    caught = sum(1 for r in rows if "| caught" in r)
+    text = ("# Seeded breakages and which check catches them\n\n"
+            "Each change was produced by an independent sub-agent (given only the property text and a scratch worktree of /repo),\n"
+            "confirmed by `checks/seeded.py verify` (compiles, the 82 tests pass, its demo fails with / passes without the change)\n"
+            "and replayed by `checks/seeded.py run` (patch applied to /repo, the property's quick check run, patch removed).\n\n"
+            "%d of %d reported by the property's own check.\n\n| id | property | quick check | what the change needs to manifest (from the seeder's notes) |\n|---|---|---|---|\n" % (caught, len(rows))
+            + "\n".join(rows) + "\n")
+    open(os.path.join(SEEDED, "SUMMARY.md"), "w").write(text)
+    print("seeded/SUMMARY.md: %d/%d caught" % (caught, len(rows)))
+    return 0
+
+
 if __name__ == "__main__":
+    if len(sys.argv) >= 2 and sys.argv[1] == "summary":
+        sys.exit(summary())
     if len(sys.argv) >= 5 and sys.argv[1] == "verify":
         sys.exit(verify(sys.argv[2], sys.argv[3], sys.argv[4]))
     if len(sys.argv) >= 2 and sys.argv[1] == "run":
